@@ -642,7 +642,7 @@ class HttpParser(abc.ABC, Generic[_MsgT]):
         # encoding
         enc = headers.get(hdrs.CONTENT_ENCODING, "")
         if enc.isascii() and enc.lower() in {"gzip", "deflate", "br", "zstd"}:
-            encoding = enc
+            encoding = enc.lower()
 
         # chunking
         te = headers.get(hdrs.TRANSFER_ENCODING)
